@@ -561,9 +561,36 @@ func fieldWrites(fn *ssa.Function, f *types.Var) (out []struct {
 func ruleLoadedOnceAfterSuccess(c *Ctx) {
 	P := c.P
 	rule := c.Prop + "/load-prunes"
-	fn := P.Method("server/core", "Storage", "LoadRegionsOnce")
+	entry := P.Method("server/core", "Storage", "LoadRegionsOnce")
 	loaded := P.Field("server/core", "Storage", "regionLoaded")
 	lr := F(P.Func("server/core", "loadRegions"))
+	// the function that sets the flag: LoadRegionsOnce itself, or a part of it moved into an unexported method that
+	// only LoadRegionsOnce calls
+	fn := entry
+	if len(fieldWrites(entry, loaded)) == 0 {
+		for _, b := range entry.Blocks {
+			for _, ins := range b.Instrs {
+				cl, ok := ins.(ssa.CallInstruction)
+				if !ok {
+					continue
+				}
+				g := cl.Common().StaticCallee()
+				if g == nil || len(g.Blocks) == 0 || fnPkgPath(g) != modPath+"/server/core" || (g.Object() != nil && g.Object().Exported()) || len(fieldWrites(g, loaded)) == 0 {
+					continue
+				}
+				sites, uses := P.CallersAll(g)
+				only := len(uses) == 0
+				for _, cs := range sites {
+					if !P.isScaffold(cs.Caller) && cs.Caller != entry {
+						only = false
+					}
+				}
+				if only {
+					fn = g
+				}
+			}
+		}
+	}
 	ws := fieldWrites(fn, loaded)
 	isSet := func(x ssa.Instruction) bool {
 		for _, w := range ws {
